@@ -232,7 +232,7 @@ def run(eng, rep) -> None:
                     rep.violation("R15.1", f.file, f.qual, site, "fields are serialised in declaration order, not ascending field_id (%s)" % why)
                 else:
                     rep.violation("R15.1", f.file, f.qual, site, "%s (%s)" % (order[6:], why))
-    rep.floor("R15.1", "wire-relevant Python iterations over struct fields", n_rel, 5)
+    rep.floor("R15.1", "wire-relevant Python iterations over struct fields", n_rel, 2)
     rep.extra["python_field_iterations"] = inventory
 
     # ---- Jinja --------------------------------------------------------------------
